@@ -222,12 +222,90 @@ def _plain(d):
     return False
 
 
+# ---------------------------------------------------------------- the width table, read at generation time
+_table = [None]
+
+
+def width_table():
+    """CELL_WIDTHS of the tree under check (parsed, rich is not imported); falls back to gen/CellWidthTable.v"""
+    if _table[0] is None:
+        import ast, re
+        import common
+        rows = None
+        try:
+            with open(os.path.join(common.REPO, "rich", "_cell_widths.py"), encoding="utf-8") as f:
+                tree = ast.parse(f.read())
+            for node in tree.body:
+                if isinstance(node, ast.Assign) and any(getattr(t, "id", None) == "CELL_WIDTHS" for t in node.targets):
+                    rows = [tuple(r) for r in ast.literal_eval(node.value)]
+        except Exception:
+            rows = None
+        if not rows:
+            with open(os.path.join(common.VERIF, "coq", "gen", "CellWidthTable.v")) as f:
+                rows = [tuple(int(x.strip("() ")) for x in m) for m in
+                        re.findall(r"\((\(?-?\d+\)?), (\(?-?\d+\)?), (\(?-?\d+\)?)\)", f.read())]
+        _table[0] = sorted(rows)
+    return _table[0]
+
+
+def char_width(cp):
+    """linear-scan reference of get_character_cell_size"""
+    if 31 < cp < 127:
+        return 1
+    import bisect
+    t = width_table()
+    i = bisect.bisect_right(t, (cp, 0x7fffffff, 9)) - 1
+    if i >= 0 and t[i][0] <= cp <= t[i][1]:
+        return 0 if t[i][2] == -1 else t[i][2]
+    return 1
+
+
+def cellw(s):
+    return sum(char_width(ord(c)) for c in s)
+
+
+_bounds = [None]
+
+
+def boundary_chars():
+    """code points at the edges of the width-table ranges that repr() shows raw (printable):
+    {'w2': [...], 'w0': [...]} -- first/last of each range, single-code-point ranges, and the
+    neighbours just outside (true width 1 unless they start another range)"""
+    if _bounds[0] is None:
+        w2, w0, out = [], [], []
+        for start, end, w in width_table():
+            for cp in {start, end}:
+                if 0xD800 <= cp <= 0xDFFF or cp > 0x10FFFF or not chr(cp).isprintable():
+                    continue
+                (w2 if w == 2 else w0).append(cp)
+            for cp in (start - 1, end + 1):
+                if 160 < cp <= 0x10FFFF and not (0xD800 <= cp <= 0xDFFF) and chr(cp).isprintable():
+                    out.append(cp)
+        _bounds[0] = {"w2": sorted(set(w2)), "w0": sorted(set(w0)), "out": sorted(set(out))}
+    return _bounds[0]
+
+
+def rboundary_str(rng, n=None):
+    """a string made (mostly) of range-boundary characters of one kind"""
+    b = boundary_chars()
+    kind = rng.choice(["w2", "w2", "w2", "w0", "w0", "out"])
+    pool = b[kind] or b["w2"] or [0x3042]
+    few = [rng.choice(pool) for _ in range(rng.choice([1, 1, 2, 3]))]
+    n = rng.choice([1, 2, 3, 4, 6, 9]) if n is None else n
+    chars = [chr(rng.choice(few)) for _ in range(n)]
+    if rng.random() < 0.3:
+        chars.insert(rng.randint(0, len(chars)), rng.choice("ab x"))
+    return "".join(chars)
+
+
 # ---------------------------------------------------------------- generators
 WIDE = "あ中\U0001f600Ａ"
 def rleaf(rng, hashable_only=False):
     r = rng.random()
     if r < 0.3:
         return [0, rng.choice([0, 1, -1, 7, 42, 255, -300, 10 ** 6, 12345678901234567890, rng.randint(-999, 9999)])]
+    if r < 0.36:
+        return [1, s2t(rboundary_str(rng))]
     if r < 0.62:
         pools = ["abc xyz", "abc xyz", WIDE + "ab", "'\"\\", "\n\t\r", "é\x00\x7f​́", "[](){},: "]
         n = rng.choice([0, 1, 2, 3, 5, 8, 13, 30])
@@ -316,12 +394,17 @@ def approx_widths(obj, indent):
 
     def go(o, depth):
         try:
-            w = len(repr(o))
+            r = repr(o)
         except Exception:
             return
+        w, cw_true = len(r), cellw(r)
         if depth < 7:
             for k in (0, 1, 2):
                 out.add(w + depth * indent + k - 1)
+                out.add(cw_true + depth * indent + k - 1)
+            lo, hi = min(w, cw_true), max(w, cw_true)      # a mis-measured character moves the break point
+            if lo < hi:
+                out.update(range(lo + depth * indent, min(hi, lo + 12) + depth * indent + 1))
             if isinstance(o, dict):
                 for k, x in list(o.items())[:6]:
                     out.add(len(repr(k)) + 2 + len(repr(x)) + (depth + 1) * indent + 1)
@@ -358,9 +441,46 @@ def rparams(rng, d):
     return [w, indent, ea, ml, ms]
 
 
+def boundary_case(rng):
+    """a small container of strings built from width-table boundary characters, at a width between the
+    cell width of its one-line form and the width a lookup that mis-measures those characters would see"""
+    strs = [[1, s2t(rboundary_str(rng))] for _ in range(rng.choice([1, 1, 1, 2, 3]))]
+    shape = rng.random()
+    if shape < 0.4:
+        d = [10, strs]
+    elif shape < 0.6:
+        d = [11, strs]
+    elif shape < 0.8:
+        d = [20, [[[1, s2t(rng.choice(["k", "", rboundary_str(rng, 2)]))], x] for x in strs]]
+    else:
+        d = [10, [[0, 1], [11, strs]]]
+    indent = rng.choice([4, 2, 0, 1])
+    try:
+        line = repr(build(d))
+    except (BadD, RecursionError):
+        return None
+    true_w = cellw(line)
+    b = boundary_chars()
+    special = set(b["w2"]) | set(b["w0"]) | set(b["out"])
+    n_special = sum(1 for c in line if ord(c) in special)
+    as_one = true_w - sum(char_width(ord(c)) - 1 for c in line if ord(c) in special)   # each counted as 1 cell
+    lo, hi = min(true_w, as_one), max(true_w, as_one)
+    w = max(1, rng.randint(lo - 1, hi + 1)) if n_special else max(1, true_w + rng.randint(-1, 1))
+    if shape >= 0.8 and rng.random() < 0.7:      # aim at the inner line instead: "    (..)" + ","
+        inner = repr(build([11, strs]))
+        tw = cellw(inner) + indent
+        ao = tw - sum(char_width(ord(c)) - 1 for c in inner if ord(c) in special)
+        w = max(1, rng.randint(min(tw, ao) - 1, max(tw, ao) + 1))
+    return ("pretty_repr", [d, min(w, 200), indent, 0, [], []])
+
+
 def generate(rng, tier):
     k = 1 if tier == "quick" else 40
     cases = []
+    for _ in range(800 * k):
+        c = boundary_case(rng)
+        if c:
+            cases.append(c)
     for i in range(3000 * k):
         depth = rng.choice([1, 2, 2, 3, 3, 4, 5, 6])
         d = rvalue(rng, depth, 0, cycles=(i % 6 == 0))
